@@ -319,7 +319,7 @@ def run_job(job, scratch_root, keep=False):
 
 # ---- memory budget: the sum of the expected peak memory (est_gb, per job family) of the running jobs stays below the
 # machine's memory; a job killed for lack of memory while others were running is retried once, nearly alone.
-MEM_TOTAL = float(os.environ.get("VERIF_MEM_GB", "50"))
+MEM_TOTAL = float(os.environ.get("VERIF_MEM_GB", "56"))
 _mem_cv = threading.Condition()
 _mem_used = [0.0]
 
@@ -328,7 +328,7 @@ def _est(job):
     if "est_gb" in job:
         return float(job["est_gb"])
     m = job.get("mem_gb", 12)
-    return 26.0 if m >= 30 else (10.0 if m >= 19 else 2.0)
+    return 22.0 if m >= 30 else (6.0 if m >= 19 else 1.5)
 
 
 def _acquire(gb):
